@@ -67,7 +67,6 @@ Proof.
 Qed.
 
 (* ------------------------------------------------------------------ exclusive_inv *)
-Definition no_add (ops : list op) : bool := forallb (fun o => negb (is_add o)) ops.
 
 Definition wf_entries (c : comp) : bool :=
   negb (malformed_time (c_start c)) && negb (malformed_time (c_end c)) && negb (malformed_dur (c_dur c)).
